@@ -1,21 +1,95 @@
-"""CPU-independent enrolment sweeps over the statement corpus (all CPUs of corpus/statements).
+"""CPU-independent sweeps over EVERY back end of cpu_list (exploration of the back ends without a Lean model).
 
-C06: for every statement and every numeric literal N in it, N + 2^k (k in KS) must not be accepted with
-the same encoding as N (the pair is never a signed/unsigned spelling of one field value because
-N >= 0 and N + 2^k >= 2^k).  The sweep is exhaustive over the corpus, hence deterministic; hits on the
-unchanged tree are listed one by one in known_findings_sweep.json.  This is exploration of the
-unmodelled back ends, reported as such in the evidence; it is not part of any theorem.
+These sweeps use property-level oracles only (never golden outputs) and fixed, seed-independent input sets, so
+that the set of failures of the unchanged tree is a fixed list: known_findings_sweep.json names every one of them
+(for large classes: the exact member set), a failure outside that list is a VIOLATION.  They are reported as
+exploration in the evidence; they are not part of any theorem.  A "CPU module" in the sense of tools/props/C0x.py.
+
+C01  encode -> decode -> encode: every statement of corpus/statements (all CPUs) and variants of its numeric
+     literals is assembled (real two-pass assembly), the emitted bytes are walked with the CPU's single-instruction
+     disassembler (must consume exactly the bytes), every printed text is assembled again at its address: rejected
+     or the same bytes.
+C06  a numeric literal N and N + 2^k are never accepted with the same encoding.
+C07  decode -> encode -> decode: byte strings (corpus encodings, single-bit flips of them) are disassembled,
+     the text is assembled at the same address; if accepted, the new bytes must disassemble to the same text
+     (after numeric normalisation).
+C08  (a) every CPU x every 16-bit prefix x fixed tail: NUL-terminated text inside the 128-byte buffer, length >= one
+     address unit and <= the CPU's longest instruction, text and length independent of the bytes after the length;
+     (b) disasm_range over fixed blocks prints exactly the chain of instruction addresses start, start+len, ...
+     up to the end; (c) naken_util -disasm over images in several page geometries lists every instruction.
 """
-import re, collections
+import re, os, json, collections, subprocess
 import nvlib, gen_src as S
 
 NUM = re.compile(r"(?<![A-Za-z0-9_$.'])(0x[0-9a-fA-F]+|\d+)(?![A-Za-z0-9_.'])")
 KS = [3, 4, 5, 6, 7, 8, 10, 12, 13, 16, 20, 24, 32]
+C01_THEOREMS = []
 C06_THEOREMS = []
+C07_THEOREMS = []
+C08_THEOREMS = []
 LEAN_MODULES = []
-NAME = "corpus sweep (all CPUs, exploration only)"
+CPU = "all-cpus-sweep"
+NAME = "sweep over all CPUs (exploration only)"
+MODELLED = "nothing (property-level oracles on the real code: round trips, length/locality/tiling, no golden outputs)"
+NOT_MODELLED = "all back ends of cpu_list are only explored here, deterministic input sets (see tools/cpu_sweep.py)"
+A0 = 0x1000
+TAIL = "00112233445566778899aabbccdd"
+HERE = os.path.dirname(os.path.dirname(os.path.abspath(__file__)))
+CRASH_CAP = 8      # crashing prefixes located per CPU before the search stops (each costs a process restart)
 
 
+# ---------------------------------------------------------------------------------------------
+# known member sets (large failure classes are listed by their exact member set)
+# ---------------------------------------------------------------------------------------------
+def _ranges_to_set(s):
+    out = set()
+    if not s:
+        return out
+    for part in s.split(","):
+        if "-" in part:
+            a, b = part.split("-")
+            out.update(range(int(a, 16), int(b, 16) + 1))
+        else:
+            out.add(int(part, 16))
+    return out
+
+
+def set_to_ranges(xs):
+    xs = sorted(xs)
+    out, i = [], 0
+    while i < len(xs):
+        j = i
+        while j + 1 < len(xs) and xs[j + 1] == xs[j] + 1:
+            j += 1
+        out.append("%04x" % xs[i] if i == j else "%04x-%04x" % (xs[i], xs[j]))
+        i = j + 1
+    return ",".join(out)
+
+
+def known_members(prop):
+    """sig -> set of members, from known_findings_sweep.json entries that carry a 'members' field"""
+    p = os.path.join(HERE, "known_findings_sweep.json")
+    out = {}
+    if os.path.exists(p):
+        for e in json.load(open(p))["entries"]:
+            if e.get("property") == prop and "members" in e and e.get("state") == "finding":
+                out[e["sig"]] = _ranges_to_set(e["members"])
+    return out
+
+
+def cpu_table(ctx):
+    """[(name, bytes_per_address)] of every cpu_list entry, from the harness"""
+    a = ctx.impl(["cpus"])[0]
+    out = []
+    for item in a.split(","):
+        n, bpa, endian = item.split(":")
+        out.append((n, max(1, int(bpa))))
+    return out
+
+
+# ---------------------------------------------------------------------------------------------
+# C06
+# ---------------------------------------------------------------------------------------------
 def c06_lines():
     lines, meta = [], []
     for cpu in S.cpus():
@@ -62,3 +136,430 @@ def c06_oracle(ctx, orc):
                                 "what": "operand silently truncated", "replay_line": "asmq %s %s" % (cpu, nvlib.hexs(st))})
     orc["stats"]["sweep_c06"] = {"statements": len(set((m[0], m[1]) for m in meta)), "variants": len(lines),
                                  "variants_accepted": accepted, "truncations": len(hits)}
+
+
+# ---------------------------------------------------------------------------------------------
+# statements and their variants (C01)
+# ---------------------------------------------------------------------------------------------
+def variants(st, thorough):
+    """the statement itself and copies with one numeric literal replaced (deterministic)"""
+    out = [st]
+    for m in NUM.finditer(st):
+        t = m.group(1)
+        v = int(t, 16) if t.startswith("0x") else int(t)
+        vals = [v + 1, v ^ 2]
+        if thorough:
+            vals += [0, 1, v - 1 if v > 0 else 3, v * 2, 0x7f, 0x80, 0xff, 0x100, 0x7fff, 0x8000, 0xffff]
+        seen = set([v])
+        for w in vals:
+            if w in seen or w < 0:
+                continue
+            seen.add(w)
+            out.append(st[:m.start(1)] + ("0x%x" % w if t.startswith("0x") else "%d" % w) + st[m.end(1):])
+    return out
+
+
+def walk_bytes(ctx, items):
+    """items: list of (key, cpu, addr, bytes).  Walks the single-instruction disassembler over the bytes.
+    returns {key: ("ok", [(off, len, text)]) | (kind, detail)}"""
+    res = {}
+    state = [(k, cpu, addr, b, 0, []) for (k, cpu, addr, b) in items]
+    while state:
+        lines = ["disx %s %x %s" % (cpu, addr + off, b[off:].hex() or "-") for (k, cpu, addr, b, off, acc) in state]
+        ans = ctx.impl(lines)
+        nxt = []
+        for (k, cpu, addr, b, off, acc), a in zip(state, ans):
+            p = a.split()
+            if a.startswith("DIED") or p[0] in ("nonul", "bad-op", "MISSING"):
+                res[k] = ("dis-crash" if a.startswith("DIED") else "dis-" + p[0], a[:160])
+                continue
+            n = int(p[0])
+            txt = nvlib.unhex(p[1]) if len(p) > 1 else b""
+            if isinstance(txt, str):
+                txt = txt.encode("latin-1")
+            if n <= 0:
+                res[k] = ("len<=0", "length %d at offset %d of %s" % (n, off, b.hex()))
+                continue
+            acc = acc + [(off, n, txt)]
+            if off + n == len(b):
+                res[k] = ("ok", acc)
+            elif off + n > len(b):
+                res[k] = ("overrun", "walk over %s consumed %d bytes: %s" % (
+                    b.hex(), off + n, "; ".join("%d:%s" % (o, t.decode("latin-1")) for o, l, t in acc)))
+            else:
+                nxt.append((k, cpu, addr, b, off + n, acc))
+        state = nxt
+    return res
+
+
+def c01_correspondence(ctx, corr):
+    return
+
+
+def c01_oracle(ctx, orc):
+    thorough = not ctx.quick()
+    lines, meta = [], []
+    for cpu in S.cpus():
+        for st in S.statements(cpu):
+            for v in variants(st, thorough):
+                lines.append("asm1 %s %x - %s" % (cpu, A0, nvlib.hexs(v)))
+                meta.append((cpu, st, v))
+    ans = ctx.impl(lines)
+    items = []
+    fails = collections.OrderedDict()
+
+    def fail(cpu, kind, st, v, exp, obs):
+        key = (cpu, kind, st)
+        if key not in fails:
+            fails[key] = {"sig": "C01:sweep:%s:%s:%s" % (cpu, kind, st), "input": ".%s / %s" % (cpu, v),
+                          "expected": exp, "observed": obs, "what": "all-CPU round-trip sweep: " + kind,
+                          "replay_line": "asm1 %s %x - %s" % (cpu, A0, nvlib.hexs(v))}
+
+    accepted = 0
+    for i, ((cpu, st, v), a) in enumerate(zip(meta, ans)):
+        orc["cases"] += 1
+        if a.startswith("DIED"):
+            fail(cpu, "asm-crash", st, v, "ok/err", a[:160])
+        elif a.startswith("ok "):
+            accepted += 1
+            items.append((i, cpu, A0, bytes.fromhex(a.split()[1])))
+    walked = walk_bytes(ctx, items)
+    lines2, meta2 = [], []
+    exact = 0
+    for (i, cpu, addr, b) in items:
+        cpu, st, v = meta[i]
+        kind, det = walked[i]
+        if kind != "ok":
+            fail(cpu, kind, st, v, "the disassembler consumes exactly the emitted bytes " + b.hex(), det)
+            continue
+        exact += 1
+        for off, n, txt in det:
+            lines2.append("asm1 %s %x - %s" % (cpu, A0 + off, txt.hex() or "-"))
+            meta2.append((i, b[off:off + n], txt))
+    ans2 = ctx.impl(lines2)
+    same = rej = 0
+    for (i, b, txt), a in zip(meta2, ans2):
+        cpu, st, v = meta[i]
+        orc["cases"] += 1
+        if a.startswith("err"):
+            rej += 1
+        elif a.startswith("ok ") and bytes.fromhex(a.split()[1]) == b:
+            same += 1
+        elif a.startswith("DIED"):
+            fail(cpu, "reasm-crash", st, v, "ok/err", a[:160])
+        else:
+            fail(cpu, "diff", st, v, "bytes %s again (or a rejection)" % b.hex(),
+                 "disassembly '%s' assembles to %s" % (txt.decode("latin-1"), a))
+    orc["failures"].extend(fails.values())
+    orc["stats"]["sweep_c01"] = {"cpus": len(S.cpus()), "statements_and_variants": len(lines), "accepted": accepted,
+                                 "walk_exact": exact, "texts_reassembled_same": same, "texts_rejected": rej,
+                                 "failing_statements": len(fails)}
+    orc["distinct_nontrivial"] = orc.get("distinct_nontrivial", 0) + accepted
+
+
+# ---------------------------------------------------------------------------------------------
+# C07
+# ---------------------------------------------------------------------------------------------
+NUMTOK = re.compile(rb"(?<![A-Za-z0-9_$.])(0x[0-9a-fA-F]+|\$[0-9a-fA-F]+|[0-9][0-9a-fA-F]*h|\d+)(?![A-Za-z0-9_])")
+
+
+def normalise(txt):
+    def rep(m):
+        t = m.group(1)
+        try:
+            if t.startswith(b"0x"):
+                v = int(t, 16)
+            elif t.startswith(b"$"):
+                v = int(t[1:], 16)
+            elif t.endswith(b"h"):
+                v = int(t[:-1], 16)
+            else:
+                v = int(t)
+        except ValueError:
+            return t
+        return b"%d" % v
+    return b" ".join(NUMTOK.sub(rep, txt).lower().replace(b",", b" , ").split())
+
+
+def mnemonic(txt):
+    p = txt.split()
+    return p[0].decode("latin-1") if p else ""
+
+
+def c07_correspondence(ctx, corr):
+    return
+
+
+def c07_oracle(ctx, orc):
+    thorough = not ctx.quick()
+    lines, meta = [], []
+    for cpu in S.cpus():
+        for st in S.statements(cpu):
+            lines.append("asm1 %s %x - %s" % (cpu, A0, nvlib.hexs(st)))
+            meta.append((cpu, st))
+    ans = ctx.impl(lines)
+    words = collections.OrderedDict()
+    for (cpu, st), a in zip(meta, ans):
+        if not a.startswith("ok "):
+            continue
+        b = bytes.fromhex(a.split()[1])
+        words[(cpu, b)] = st
+        nbits = min(len(b), 4) * 8
+        h = sum(b) + len(st)
+        flips = range(nbits) if thorough else sorted(set((h + 5 * j) % nbits for j in range(4)))
+        for bit in flips:
+            c = bytearray(b)
+            c[bit // 8] ^= 1 << (bit % 8)
+            words.setdefault((cpu, bytes(c) + bytes.fromhex(TAIL)[:4]), st)
+    keys = list(words)
+    ans = ctx.impl(["disx %s %x %s" % (cpu, A0, b.hex()) for cpu, b in keys])
+    lines2, meta2 = [], []
+    for (cpu, b), a in zip(keys, ans):
+        orc["cases"] += 1
+        p = a.split()
+        if a.startswith("DIED") or p[0] in ("nonul", "bad-op", "MISSING") or int(p[0]) <= 0 or len(p) < 2:
+            continue            # C08's business
+        n = int(p[0])
+        txt = nvlib.unhex(p[1])
+        txt = txt.encode("latin-1") if isinstance(txt, str) else txt
+        lines2.append("asm1 %s %x - %s" % (cpu, A0, txt.hex()))
+        meta2.append((cpu, b[:n], txt))
+    ans2 = ctx.impl(lines2)
+    lines3, meta3 = [], []
+    fails = collections.OrderedDict()
+    acc = 0
+    for (cpu, b, txt), a in zip(meta2, ans2):
+        if a.startswith("DIED"):
+            key = (cpu, "asm-crash", mnemonic(txt))
+            fails.setdefault(key, {"sig": "C07:sweep:%s:asm-crash:%s" % (cpu, mnemonic(txt)), "input": txt.decode("latin-1"),
+                                   "expected": "ok/err", "observed": a[:160], "what": "assembler crashed on disassembly text",
+                                   "replay_line": "asm1 %s %x - %s" % (cpu, A0, txt.hex())})
+            continue
+        if not a.startswith("ok "):
+            continue
+        acc += 1
+        b2 = bytes.fromhex(a.split()[1])
+        if b2 == b:
+            continue            # same bytes: same instruction
+        lines3.append("disx %s %x %s" % (cpu, A0, b2.hex()))
+        meta3.append((cpu, b, txt, b2))
+    ans3 = ctx.impl(lines3)
+    for (cpu, b, txt, b2), a in zip(meta3, ans3):
+        orc["cases"] += 1
+        p = a.split()
+        txt2 = b""
+        if len(p) > 1 and not a.startswith("DIED") and p[0] not in ("nonul", "bad-op"):
+            t = nvlib.unhex(p[1])
+            txt2 = t.encode("latin-1") if isinstance(t, str) else t
+        if normalise(txt2) == normalise(txt):
+            continue
+        key = (cpu, mnemonic(txt), mnemonic(txt2))
+        fails.setdefault(key, {"sig": "C07:sweep:%s:%s->%s" % key, "input": ".%s bytes %s = '%s'" % (cpu, b.hex(), txt.decode("latin-1")),
+                               "expected": "re-assembled bytes disassemble to the same instruction",
+                               "observed": "assembled to %s = '%s'" % (b2.hex(), txt2.decode("latin-1")),
+                               "what": "all-CPU decode->encode->decode sweep", "replay_line": "disx %s %x %s" % (cpu, A0, b.hex())})
+    orc["failures"].extend(fails.values())
+    orc["stats"]["sweep_c07"] = {"byte_strings": len(keys), "texts_accepted": acc, "reassembled_to_other_bytes": len(lines3),
+                                 "failing_classes": len(fails)}
+    orc["distinct_nontrivial"] = orc.get("distinct_nontrivial", 0) + acc
+
+
+# ---------------------------------------------------------------------------------------------
+# C08
+# ---------------------------------------------------------------------------------------------
+def maxlen_table():
+    return json.load(open(os.path.join(HERE, "tools", "sweep_maxlen.json")))
+
+
+def disxb_all(ctx, cpus, addr, chunk=4096):
+    """returns {cpu: {"bad": {kind: {prefix: len}}, "max": n, "crash": set(prefix), "n": count}}"""
+    res = {c: {"bad": collections.defaultdict(dict), "max": 0, "n": 0, "lens": collections.Counter()} for c, _ in cpus}
+    work = [(c, fr, fr + chunk) for c, _ in cpus for fr in range(0, 65536, chunk)]
+    while work:
+        ans = ctx.impl(["disxb %s %x %s %d %d" % (c, addr, TAIL, fr, to) for c, fr, to in work])
+        nxt = []
+        for (c, fr, to), a in zip(work, ans):
+            if not a.startswith("n="):
+                if len(res[c]["bad"]["crash"]) >= CRASH_CAP:
+                    res[c]["unexplored"] = res[c].get("unexplored", 0) + (to - fr)   # enough crashes to report
+                elif to - fr == 1:
+                    res[c]["bad"]["crash"][fr] = a[:120]
+                    res[c]["n"] += 1
+                else:
+                    mid = (fr + to) // 2
+                    nxt += [(c, fr, mid), (c, mid, to)]
+                continue
+            d = dict(x.split("=", 1) for x in a.split())
+            res[c]["n"] += int(d["n"])
+            res[c]["max"] = max(res[c]["max"], int(d["max"]))
+            if d["bad"] != "-":
+                for b in d["bad"].split(";"):
+                    p, k, l = b.split(":")
+                    res[c]["bad"][k][int(p, 16)] = int(l)
+            for x in d["lens"].split(","):
+                l, n = x.split(":")
+                res[c]["lens"][int(l)] += int(n)
+        work = nxt
+    return res
+
+
+def lcg_block(seed, n):
+    out = bytearray()
+    x = seed & 0xffffffff
+    for _ in range(n):
+        x = (x * 1664525 + 1013904223) & 0xffffffff
+        out.append((x >> 16) & 0xff)
+    return bytes(out)
+
+
+def c08_correspondence(ctx, corr):
+    return
+
+
+def c08_oracle(ctx, orc):
+    cpus = cpu_table(ctx)
+    maxlen = maxlen_table()
+    known = known_members("C08")
+    res = disxb_all(ctx, cpus, A0)
+    stats = {"cpus": len(cpus), "prefixes_per_cpu": 65536, "instructions": 0, "bad_by_kind": collections.Counter()}
+    skip_walk = set()
+    for c, bpa in cpus:
+        r = res[c]
+        orc["cases"] += r["n"]
+        stats["instructions"] += r["n"]
+        if r["max"] > maxlen.get(c, 0):
+            orc["failures"].append({"sig": "C08:sweep:%s:toolong:%d" % (c, r["max"]), "input": ".%s all 16-bit prefixes" % c,
+                                    "expected": "length <= %d (the CPU's longest instruction)" % maxlen.get(c, 0),
+                                    "observed": "length %d" % r["max"], "what": "instruction length above the CPU's maximum"})
+        for kind, members in r["bad"].items():
+            stats["bad_by_kind"][kind] += len(members)
+            if kind in ("short", "crash"):
+                skip_walk.add(c)
+            sig = "C08:sweep:%s:%s" % (c, kind)
+            new = sorted(set(members) - known.get(sig, set()))
+            if len(new) < len(members):
+                orc["failures"].append({"sig": sig, "input": ".%s prefixes %s" % (c, set_to_ranges(set(members) - set(new))[:300]),
+                                        "expected": "see property", "observed": kind, "what": "known class"})
+            for p in new[:8]:
+                orc["failures"].append({
+                    "sig": "%s:%04x" % (sig, p), "input": ".%s bytes %04x%s at 0x%x" % (c, p, TAIL, A0),
+                    "expected": {"short": "length >= one address unit (%d)" % bpa,
+                                 "nonlocal": "text and length independent of the bytes after the instruction",
+                                 "nonul": "NUL-terminated text inside the 128-byte buffer",
+                                 "crash": "the disassembler returns"}.get(kind, kind),
+                    "observed": "%s (%s)" % (kind, members[p]), "what": "single-instruction disassembly: " + kind,
+                    "replay_line": "disx %s %x %04x%s" % (c, A0, p, TAIL)})
+    # (b) range walk = chain of instruction lengths
+    wl, wm = [], []
+    for c, bpa in cpus:
+        if c in skip_walk:
+            continue
+        for bi, (start, n) in enumerate([(0x1000, 192), (0xff40, 256), (0x20000 - 64, 96)]):
+            blk = lcg_block(0x1234567 + bi * 977 + sum(map(ord, c)), n)
+            wl.append("walk %s %x %x %s" % (c, start, start + n - 1, blk.hex()))
+            wm.append((c, bpa, start, blk))
+    wa = ctx.impl(wl)
+    dl, dm = [], []
+    for (c, bpa, start, blk), a in zip(wm, wa):
+        orc["cases"] += 1
+        if a.startswith("DIED") or a in ("bad-op", "MISSING"):
+            orc["failures"].append({"sig": "C08:sweep:%s:walk-crash:%x" % (c, start), "input": ".%s range 0x%x" % (c, start),
+                                    "expected": "the range walk returns", "observed": a[:160], "what": "disasm_range died / hung",
+                                    "replay_line": "walk %s %x %x %s" % (c, start, start + len(blk) - 1, blk.hex())})
+            continue
+        if a == "-":
+            continue
+        addrs = [int(x.rstrip("+"), 16) * bpa for x in a.split(",") if not x.endswith("+")]
+        for ad in addrs:
+            if start <= ad < start + len(blk):
+                dl.append("disx %s %x %s" % (c, ad, blk[ad - start:].hex()))
+                dm.append((c, start, ad))
+        dm.append((c, start, None, addrs, blk))
+    da = ctx.impl(dl)
+    lens = {}
+    it = iter(da)
+    for m in dm:
+        if len(m) == 3:
+            a = next(it)
+            p = a.split()
+            lens[m] = int(p[0]) if p and p[0].lstrip("-").isdigit() else None
+    walks = 0
+    for m in dm:
+        if len(m) != 5:
+            continue
+        c, start, _, addrs, blk = m
+        walks += 1
+        end = start + len(blk) - 1
+        exp, ad = [], start
+        ok = True
+        while ad <= end:
+            exp.append(ad)
+            n = lens.get((c, start, ad))
+            if n is None:
+                # the walk did not print this address: its length is unknown, ask for it later (mismatch anyway)
+                ok = False
+                break
+            if n <= 0:
+                break
+            ad += n
+        if not ok or addrs != exp:
+            orc["failures"].append({
+                "sig": "C08:sweep:%s:walk-tiling:%x" % (c, start), "input": ".%s range 0x%x-0x%x over %s" % (c, start, end, blk.hex()[:64]),
+                "expected": "addresses %s..." % ",".join("%x" % x for x in exp[:12]),
+                "observed": "addresses %s..." % ",".join("%x" % x for x in addrs[:12]),
+                "what": "disasm_range does not print the chain start, start+len, ... up to the end",
+                "replay_line": "walk %s %x %x %s" % (c, start, end, blk.hex())})
+    stats["range_walks"] = walks
+    stats["walk_skipped_cpus"] = sorted(skip_walk)
+    # (c) naken_util -disasm page geometry
+    stats["util_disasm_runs"] = util_page_walk(ctx, orc)
+    stats["bad_by_kind"] = dict(stats["bad_by_kind"])
+    orc["stats"]["sweep_c08"] = stats
+    orc["distinct_nontrivial"] = orc.get("distinct_nontrivial", 0) + stats["instructions"]
+
+
+UTIL_CPUS = [("msp430", bytes([0x03, 0x43]), 1), ("z80", bytes([0x00]), 1), ("arm", bytes([0x00, 0x00, 0xa0, 0xe1]), 1),
+             ("avr8", bytes([0x00, 0x00]), 2)]
+GEOMETRIES = [(0x0, 0x100), (0x8000, 0x8100), (0x8000, 0x10100), (0xfff0, 0x40), (0x1fffc, 0x8), (0xff00, 0x10080),
+              (0x10000, 0x10000), (0x7ffc, 0x20008), (0xc000, 0x14004)]
+
+
+def util_page_walk(ctx, orc):
+    tmp = ctx.tmpdir()
+    runs = 0
+    for cpu, nop, bpa in UTIL_CPUS:
+        for gi, (start, size) in enumerate(GEOMETRIES):
+            size -= size % len(nop)
+            path = os.path.join(tmp, "pw_%s_%d.bin" % (cpu, gi))
+            open(path, "wb").write(nop * (size // len(nop)))
+            try:
+                r = subprocess.run([ctx.repo["naken_util"], "-disasm", "-" + cpu, "-bin", "-address", "0x%x" % (start // bpa), path],
+                                   stdout=subprocess.PIPE, stderr=subprocess.PIPE, env=nvlib.SAN_ENV, timeout=120)
+                out, rc = r.stdout.decode("latin-1"), r.returncode
+            except subprocess.TimeoutExpired:
+                out, rc = "", -999
+            runs += 1
+            orc["cases"] += 1
+            addrs = []
+            for line in out.split("\n"):
+                m = re.match(r"^0x([0-9a-fA-F]+):", line)
+                if m:
+                    addrs.append(int(m.group(1), 16) * bpa)
+            exp = list(range(start, start + size, len(nop)))
+            if rc != 0 or addrs != exp:
+                miss = sorted(set(exp) - set(addrs))
+                extra = [a for a in addrs if a not in set(exp)]
+                dup = len(addrs) - len(set(addrs))
+                orc["failures"].append({
+                    "sig": "C08:util-disasm:%s:%x+%x" % (cpu, start, size),
+                    "input": "naken_util -disasm -%s -bin -address 0x%x (image of %d bytes of nop)" % (cpu, start // bpa, size),
+                    "expected": "every instruction address %x..%x listed once, in order" % (start, start + size - len(nop)),
+                    "observed": "rc=%d, %d lines, %d missing (first %s), %d unexpected, %d repeated" % (
+                        rc, len(addrs), len(miss), ["%x" % x for x in miss[:3]], len(extra), dup),
+                    "what": "whole-image disassembly does not tile the image",
+                    "replay": {"cpu": "sweep", "kind": "util", "util_cpu": cpu, "start": start, "size": size}})
+    return runs
+
+
+def replay(ctx, r):
+    return []
